@@ -2,6 +2,7 @@ package main
 
 import (
 	"fmt"
+	"go/types"
 	"sort"
 	"strings"
 
@@ -67,6 +68,22 @@ func freshAddressCopies(r *Run, rule string) {
 		n++
 		v := P.TermAt(st.Val, st).String()
 		r.Check(strings.HasPrefix(v, "addr:makeslice["), rule, "sortNoLongerStaked/element-is-fresh-copy", P.InstrPos(st), v, "the list element is "+oneLine(v)+" ; required a freshly made slice filled by copy (a slice of the shared range variable aliases every entry to the last key)")
+	})
+	// the list may also be grown with append(list, element)
+	Instrs(f, func(in ssa.Instruction) {
+		c, ok := in.(*ssa.Call)
+		if !ok {
+			return
+		}
+		if b, isB := c.Call.Value.(*ssa.Builtin); !isB || b.Name() != "append" || len(c.Call.Args) != 2 {
+			return
+		}
+		if _, isNested := c.Call.Args[0].Type().Underlying().(*types.Slice).Elem().Underlying().(*types.Slice); !isNested {
+			return
+		}
+		n++
+		v := argTerm(P.callTerm(c), 1).String()
+		r.Check(strings.HasPrefix(v, "list(addr:makeslice[") || strings.HasPrefix(v, "list(makeslice("), rule, "sortNoLongerStaked/element-is-fresh-copy", P.InstrPos(c), v, "the appended element is "+oneLine(v)+" ; required a freshly made slice filled by copy")
 	})
 	if n == 0 {
 		r.Viol(rule, "sortNoLongerStaked/element-is-fresh-copy", P.Pos(f.Pos()), "no element store into the result slice found")
